@@ -1221,3 +1221,9 @@ m('N6-slice-of-an-accessor-is-a-plain-tuple', 'C04', 'N6', 'PyTreeAccessor.__get
             return self.__class__(super().__getitem__(index))
         return super().__getitem__(index)""",
   """        return super().__getitem__(index)""")
+m('L6-walk-agenda-kept-between-calls', 'C05', 'L6', 'PyTreeSpec::WalkImpl/static agenda', 'src/treespec/traversal.cpp',
+  """    const scoped_critical_section cs{leaves};
+    auto agenda = reserved_vector<py::object>(4);""",
+  """    const scoped_critical_section cs{leaves};
+    static thread_local auto agenda = reserved_vector<py::object>(4);
+    agenda.clear();""")
